@@ -125,7 +125,9 @@ func Explain(c Case) (out Case) {
 			var err error
 			if boolean(c, "wb") && str(e, "method") != "MUSMaxSat" { // white-box events of the solvers the method creates
 				ctx.mu.Lock()
-				ctx.on, ctx.newEvents, ctx.events, ctx.limit = true, true, nil, 6000
+				// the trace specification reads the clauses a solver is given and the clauses it learns (LearnFold)
+				ctx.on, ctx.newEvents, ctx.events, ctx.limit = true, true, nil, 20000
+				ctx.only = map[string]bool{"append": true, "block": true, "learn": true, "learn-empty": true}
 				ctx.mu.Unlock()
 			}
 			switch str(e, "method") {
@@ -142,7 +144,7 @@ func Explain(c Case) (out Case) {
 			}
 			ctx.mu.Lock()
 			wasOn := ctx.on
-			ctx.on, ctx.newEvents = false, false
+			ctx.on, ctx.newEvents, ctx.only = false, false, nil
 			ctx.mu.Unlock()
 			if wasOn {
 				r["wb"] = takeEvents()
